@@ -38,7 +38,13 @@ def _decls():
             d2["opts"].append(o2)
         d2["label"] = d["label"] + "/env"
         bound.append(d2)
-    return fam + bound
+    envdef = optgen.D([optgen.M(b"inc", b"i", default=[b"d1", b"d2"], env=ENVS[0]),
+                       optgen.O(b"out", b"o", default=b"dflt", env=ENVS[1]),
+                       optgen.T(b"color", b"c", rev=True, default=1, env=ENVS[2]),
+                       optgen.T(b"verbose", b"v", default=3),
+                       optgen.M(b"lib", default=[b"x"]), optgen.O(b"level", default=b"3")], pos=1,
+                      label="defaults-competing-with-env")
+    return fam + bound + [envdef] * 6
 
 
 def gen(tier, seed, chunk, nchunks_):
@@ -63,8 +69,11 @@ def gen(tier, seed, chunk, nchunks_):
             envops = []
             if change_env and rng.random() < 0.6:
                 name = rng.choice(envnames)
-                if rng.random() < 0.3:
+                q = rng.random()
+                if q < 0.3:
                     envops.append([name, None])
+                elif q < 0.4:
+                    envops.append([name, b""])
                 else:
                     envops.append([name, rng.choice(ENV_VALUES)])
             style = rng.random()
